@@ -109,7 +109,7 @@ func resetTerms() {
 type options struct {
 	loopBound, depthMax, qTimeout, encTimeout, pruneMs, workers, maxTerms, validate int
 	solver, keep, traceQ, mapOrder                                                string
-	cross, prof, decide                                                           bool
+	cross, prof, decide, oneshot                                                  bool
 	seed                                                                          int64
 }
 
@@ -141,6 +141,7 @@ func main() {
 	fs.StringVar(&op.traceQ, "trace", "", "print the block trace of the model of the sat query with this label")
 	fs.BoolVar(&op.decide, "decide", false, "ask the pruning solver at every symbolic branch whether it is decided")
 	fs.StringVar(&op.mapOrder, "maporder", "symbolic", "symbolic: every range over a map visits the keys in a solver-chosen order; fixed: insertion order")
+	fs.BoolVar(&op.oneshot, "oneshot", false, "one non-incremental solver run per query (needed for non-linear arithmetic)")
 	fs.BoolVar(&op.prof, "profile", false, "print per-function term/time profile of the encoding")
 	consts := constFlags{}
 	fs.Var(consts, "const", "harness constant name=value (repeatable)")
@@ -351,7 +352,7 @@ func runCube(prog *ssa.Program, pkg *ssa.Package, fn *ssa.Function, modPath stri
 		os.MkdirAll(dir, 0o755)
 	}
 	t2 := time.Now()
-	all := solveQueries(ex, qs, dir, time.Duration(op.qTimeout)*time.Second, op.workers, op.solver, op.cross)
+	all := solveQueries(ex, qs, dir, time.Duration(op.qTimeout)*time.Second, op.workers, op.solver, op.cross, op.oneshot)
 	res.SolveSecs = time.Since(t2).Seconds()
 	res.NQueries = len(all)
 	for i := range all {
